@@ -59,7 +59,7 @@ fn timed_call(api: Api, d: Duration) -> (bool, bool) {
         Api::CondvarWaitTimeout => {
             let m = Mutex::new(0u32);
             let cv = Condvar::new();
-            let g = m.lock().unwrap();
+            let g = m.lock().unwrap_or_else(|e| e.into_inner());
             let (_g, r) = cv.wait_timeout(g, d).unwrap();
             (r.timed_out(), false)
         }
@@ -176,7 +176,7 @@ fn timer_list_prefilled(e: &'static Engine, adders: &'static [&'static str], pre
     e.spawn("timer", move || {
         let f = move |data: usize| {
             let now = may::verif::now();
-            fired.lock().unwrap().push((data, now));
+            fired.lock().unwrap_or_else(|e| e.into_inner()).push((data, now));
         };
         tt.run(&f);
     });
@@ -193,7 +193,7 @@ fn timer_list_prefilled(e: &'static Engine, adders: &'static [&'static str], pre
                         // entry directly instead of asking the list's consumer thread to do it
                         if let Some((h, data)) = last.take() {
                             let removed = h.remove().is_some();
-                            let mut du = due.lock().unwrap();
+                            let mut du = due.lock().unwrap_or_else(|e| e.into_inner());
                             if let Some(x) = du.iter_mut().find(|x| x.0 == data) {
                                 x.2 = true;
                                 let _ = removed;
@@ -204,7 +204,7 @@ fn timer_list_prefilled(e: &'static Engine, adders: &'static [&'static str], pre
                         if let Some((h, data)) = last.take() {
                             let now = may::verif::now();
                             tt.del_timer(h);
-                            let mut du = due.lock().unwrap();
+                            let mut du = due.lock().unwrap_or_else(|e| e.into_inner());
                             if let Some(x) = du.iter_mut().find(|x| x.0 == data) {
                                 // deleted: it may fire only if it was due already
                                 x.2 = true;
@@ -217,7 +217,7 @@ fn timer_list_prefilled(e: &'static Engine, adders: &'static [&'static str], pre
                         let dur = Duration::from_nanos(half_ms * MS / 2);
                         let data = a * 100 + k;
                         let now = may::verif::now();
-                        due.lock().unwrap().push((data, now + dur.as_nanos() as u64, false));
+                        due.lock().unwrap_or_else(|e| e.into_inner()).push((data, now + dur.as_nanos() as u64, false));
                         let h = tt.add_timer(dur, data);
                         last = Some((h, data));
                     }
@@ -233,8 +233,8 @@ fn timer_list_prefilled(e: &'static Engine, adders: &'static [&'static str], pre
     // let everything expire
     e.vsleep(20 * MS);
     e.quiesce();
-    let fired = fired.lock().unwrap().clone();
-    let due = due.lock().unwrap().clone();
+    let fired = fired.lock().unwrap_or_else(|e| e.into_inner()).clone();
+    let due = due.lock().unwrap_or_else(|e| e.into_inner()).clone();
     for (data, deadline, deleted) in due.iter() {
         let f: Vec<&(usize, u64)> = fired.iter().filter(|x| x.0 == *data).collect();
         if f.len() > 1 {
@@ -266,7 +266,7 @@ fn many_intervals(e: &'static Engine, n: usize) {
     let fired: &'static StdMutex<Vec<(usize, u64)>> = Box::leak(Box::new(StdMutex::new(vec![])));
     e.spawn("timer", move || {
         let f = move |data: usize| {
-            fired.lock().unwrap().push((data, may::verif::now()));
+            fired.lock().unwrap_or_else(|e| e.into_inner()).push((data, may::verif::now()));
         };
         tt.run(&f);
     });
@@ -285,7 +285,7 @@ fn many_intervals(e: &'static Engine, n: usize) {
     std::mem::forget(tt.add_timer(d, n));
     e.vsleep(10_000);
     e.quiesce();
-    let f = fired.lock().unwrap().clone();
+    let f = fired.lock().unwrap_or_else(|e| e.into_inner()).clone();
     for i in 0..=n {
         let mine: Vec<&(usize, u64)> = f.iter().filter(|x| x.0 == i).collect();
         if mine.len() != 1 {
